@@ -458,8 +458,14 @@ func neighbors(c *mc.Ctx) {
 			st.retained = st.retained[len(st.retained)-1:]
 			jobOldest = st.retained[0].id
 			c.Op("notify(op%d: retain [%d])", i, st.retained[0].id)
-			if err := st.db.UpdateRetainedCheckpoints([]uint64{st.retained[0].id}); err != nil {
+			root.Record(true)
+			err := st.db.UpdateRetainedCheckpoints([]uint64{st.retained[0].id})
+			root.Record(false)
+			if err != nil {
 				c.Failf("UpdateRetainedCheckpoints: %v", err)
+			}
+			if c.Fresh() {
+				checkRetentionOrder(c, root.PeekLog(), stripAnyAlias(st.retained[0].h.URI), fmt.Sprintf("notify(op%d)", i), stripAnyAlias)
 			}
 			verify(fmt.Sprintf("notify(op%d)", i))
 		case op == 2*p.n+1: // a job checkpoint: every operator checkpoints
